@@ -7,6 +7,33 @@ HERE = os.path.dirname(os.path.dirname(os.path.abspath(__file__)))
 
 # property -> (technique, level text, level note, design ref)
 CLAIMED = {
+    "C12": (
+        "decision-table extraction of the PCI dispatch in decode_rx_frame compared with ISO "
+        "15765-2, whole-package index discipline of the per-ID state arrays, regex-AST group "
+        "check (re._parser), must-pass-through query for flow control on the CFG",
+        "Decides the structural part of the reassembler: the frame table (PCI nibble, u4u4/u4u12 "
+        "formats, payload slices, (last+1) mod 16, completion and padding truncation), that "
+        "every access to per-ID state uses the frame's receive-ID index (no shared or "
+        "whole-array state), that the log regexes deliver the groups the reader converts, and "
+        "that every path through IsoTpActiveDecoder.on_first_frame sends a clear-to-send frame. "
+        "These are necessary conditions of the property for every schedule; the behaviour over "
+        "interleavings and all lengths is not explored.",
+        "Not decided: correctness over concrete interleavings / lengths 1..4095 as such. Known "
+        "finding: CAN-FD SF_DL == 0 escape unsupported. Trusted: bitstruct format semantics.",
+        "DESIGN.md section 3, C12"),
+    "C13": (
+        "exception-freedom and typestate analysis of decode_rx_frame on its CFG (dominating "
+        "len(data) guards for every unpack, no state asserts, buffer used only under an "
+        "is-not-None guard, reset post-dominating the yield, control dependence of state writes "
+        "on the sequence check) plus a who-may-write scan of every module",
+        "Decides that no construct in decode_rx_frame can raise on frame data, that the "
+        "reassembly buffer follows the idle/receiving typestate on every path (first frame "
+        "re-initialises, completion resets, idle consecutive frames rejected), that a sequence "
+        "error changes no state, and that no callback or subclass writes the buffers. This "
+        "covers every frame sequence because the rules quantify over all CFG paths.",
+        "Not decided: exceptions raised inside user-supplied callbacks; numeric content of "
+        "reassembled telegrams (C12). Trusted: the guard recogniser (len(data) comparisons).",
+        "DESIGN.md section 3, C13"),
     "C17": (
         "whole-package who-may-read / who-may-write analysis of the strict_mode flag over the "
         "ASTs (import-alias resolution, import-time vs call-time position, CFG of odxraise)",
